@@ -7,14 +7,23 @@
 EXTENDS GenLines, Spell
 
 CONSTANT Spellings      \* sequence of [ds, de, tl, rm]
+CONSTANT CliPhase       \* "" : library only; "eq" / "sep": the respelled phase is also run through the command line, the
+                        \* respelled configuration given by options in the form --opt=value / --opt value
 
 BaseSp == [ds |-> DS, de |-> DE, tl |-> TL, rm |-> RM]
+
+CliOp(inp, outp, mode, js) ==
+  [op |-> "cli", input |-> inp, output |-> outp, mode |-> mode, json |-> js, targets_via |-> "flags", current |-> "given",
+   conf_final_newline |-> TRUE, tz |-> "UTC", lang |-> "", now_zone_min |-> 0, file_targets |-> <<>>, flag_targets |-> TARGETS,
+   omit |-> <<>>, argform |-> CliPhase]
+CliOps == IF CliPhase = "" THEN <<>>
+          ELSE <<CliOp("file", "stdout", "clean", FALSE), CliOp("stdin", "file", "list", TRUE), CliOp("stdin", "stdout", "clean", FALSE)>>
 
 OpsFor(sp) ==
   <<[op |-> "clean"], [op |-> "list_json"],
     [op |-> "edit", src |-> Respell(GenDoc \o <<NL>>, BaseSp, sp)],
     [op |-> "config", ds |-> sp.ds, de |-> sp.de, tl |-> sp.tl, rm |-> sp.rm],
-    [op |-> "clean"], [op |-> "list_json"]>>
+    [op |-> "clean"], [op |-> "list_json"]>> \o CliOps
 
 EmitPairs == Complete =>
   \A j \in 1..Len(Spellings) : EmitRec([id |-> "", src |-> GenDoc \o <<NL>>, ops |-> OpsFor(Spellings[j])])
